@@ -237,6 +237,7 @@ impl Property for C12 {
     type Case = Case;
     const ID: &'static str = "C12";
     fn rule(&self) -> String {
+        // (close pairs x vs x +- 2^k are part of the Ord/Eq differential)
         "differential: one generated input fed to the arkworks and to the minimal configuration in the same process. Cases: field operation chains \
          over all shared forms (Fq/Fr/Fp), field byte parsing / reduction / integer conversion / ordering on byte strings of length 0..=200, all \
          six shared decode entry points on near-miss 32-byte strings and slices of other lengths, Elligator map and two-input hash, constants, and \
